@@ -23,7 +23,9 @@ synchronize code:
   array elements, a structure field and a Value with a user-supplied Lock;
   final == initial + sum of the sequences the updaters report.  An unlocked
   control run shows the workload really contends (lost updates expected
-  there, reported as evidence only)."""
+  there, reported as evidence only).
+* fork_held - a process forked while the forking thread holds the object's lock (default lock, RLock or Lock given by the caller): the child's non-blocking attempt fails, nothing it does under the lock happens before the parent lets go, no locked update of either is lost.
+"""
 import bisect
 import collections
 import ctypes
